@@ -73,8 +73,9 @@ def stub_uniform(E, M, prefix="u", fixed=None):
 
         lo, hi = round(a * SCALE), round(b * SCALE)
         cnt[0] += 1
-        if fixed is not None:
-            v = fixed(lo, hi, cnt[0])
+        v = fixed(lo, hi, cnt[0]) if fixed is not None else None
+        if v is not None:
+            pass
         elif lo == hi:
             v = lo
         else:
